@@ -3,9 +3,11 @@ pub mod c03;
 pub mod c04;
 pub mod c06;
 pub mod c07;
+pub mod c08;
 pub mod c10;
 pub mod c11;
 pub mod c12;
+pub mod c13;
 pub mod c14;
 pub mod c15;
 pub mod c16;
@@ -20,12 +22,14 @@ pub fn parts_for(property: &str) -> Option<Vec<Box<dyn PartDyn>>> {
         "C03" => c03::parts(),
         "C01" => c04::parts_c01(),
         "C04" => c04::parts(),
+        "C08" => c08::parts(),
         "C09" => c04::parts_c09(),
         "C06" => c06::parts(),
         "C07" => c07::parts(),
         "C10" => c10::parts(),
         "C11" => c11::parts(),
         "C12" => c12::parts(),
+        "C13" => c13::parts(),
         "C14" => c14::parts(),
         "C15" => c15::parts(),
         "C16" => c16::parts(),
@@ -35,4 +39,4 @@ pub fn parts_for(property: &str) -> Option<Vec<Box<dyn PartDyn>>> {
     })
 }
 
-pub const ALL: &[&str] = &["C01", "C02", "C03", "C04", "C06", "C07", "C09", "C10", "C11", "C12", "C14", "C15", "C16", "C19", "C20"];
+pub const ALL: &[&str] = &["C01", "C02", "C03", "C04", "C06", "C07", "C08", "C09", "C10", "C11", "C12", "C13", "C14", "C15", "C16", "C19", "C20"];
